@@ -24,6 +24,8 @@ pub struct GenOpts {
     pub enum_into_existing: bool,
     /// allow literal / pattern scenario
     pub allow_primitive_enum: bool,
+    /// more members per type and denser repeat blocks (C14)
+    pub repeat_heavy: bool,
 }
 
 impl Default for GenOpts {
@@ -40,6 +42,7 @@ impl Default for GenOpts {
             random_spelling: true,
             enum_into_existing: false,
             allow_primitive_enum: true,
+            repeat_heavy: false,
         }
     }
 }
@@ -527,7 +530,7 @@ fn gen_struct(t: &mut Tape, o: &GenOpts, lab: &mut Labels) -> Item {
             }
         }
     }
-    let nfields = if shape == Shape::Unit { 0 } else { t.weighted(&[1, 3, 4, 4, 2, 1]) };
+    let nfields = if shape == Shape::Unit { 0 } else if o.repeat_heavy { 3 + t.below(5) } else { t.weighted(&[1, 3, 4, 4, 2, 1]) };
     let needs_name = shape == Shape::Tuple && cps.iter().any(|c| c.hint == Some(Hint::Struct));
     let mut child_paths: Vec<String> = vec![];
     let mut fields = vec![];
@@ -647,7 +650,7 @@ fn gen_struct(t: &mut Tape, o: &GenOpts, lab: &mut Labels) -> Item {
     }
 
     if o.allow_repeat {
-        crate::gen_repeat::decorate_struct_repeats(t, &mut fields, lab);
+        crate::gen_repeat::decorate_struct_repeats(t, &mut fields, o.repeat_heavy, lab);
         crate::gen_repeat::decorate_trait_repeats(t, &mut type_instrs, lab);
     }
 
@@ -668,7 +671,7 @@ fn gen_enum(t: &mut Tape, o: &GenOpts, lab: &mut Labels) -> Item {
     }
     lab.add("enum");
     let (cps, tinstrs) = gen_counterparts(t, o, true, false, lab);
-    let nv = 1 + t.weighted(&[2, 4, 4, 2, 1]);
+    let nv = if o.repeat_heavy { 2 + t.below(4) } else { 1 + t.weighted(&[2, 4, 4, 2, 1]) };
     let mut variants: Vec<(Vec<Instr>, String, Shape, Vec<(Vec<Instr>, String)>)> = vec![];
     let mut dummy_paths = vec![];
     for vi in 0..nv {
@@ -678,7 +681,7 @@ fn gen_enum(t: &mut Tape, o: &GenOpts, lab: &mut Labels) -> Item {
             _ => Shape::Named,
         };
         lab.add(&format!("variant:{:?}", shape));
-        let nf = if shape == Shape::Unit { 0 } else { 1 + t.below(3) };
+        let nf = if shape == Shape::Unit { 0 } else if o.repeat_heavy { 2 + t.below(3) } else { 1 + t.below(3) };
         let mut vattrs: Vec<Instr> = vec![];
         // type hint
         let mut hint: Option<Hint> = None;
@@ -768,7 +771,7 @@ fn gen_enum(t: &mut Tape, o: &GenOpts, lab: &mut Labels) -> Item {
         t.shuffle(&mut type_instrs);
     }
     if o.allow_repeat {
-        crate::gen_repeat::decorate_enum_repeats(t, &mut variants, lab);
+        crate::gen_repeat::decorate_enum_repeats(t, &mut variants, o.repeat_heavy, lab);
         crate::gen_repeat::decorate_trait_repeats(t, &mut type_instrs, lab);
     }
     let attrs = spell(t, o, type_instrs, lab);
